@@ -1,6 +1,7 @@
 package props
 
 import (
+	"encoding/json"
 	"fmt"
 	"math"
 
@@ -261,6 +262,16 @@ func c07Run(c *mon.Ctx) {
 	}
 }
 
+func c07Replay(kind string, raw json.RawMessage) (bool, string) {
+	var cs c07Case
+	if err := json.Unmarshal(raw, &cs); err != nil {
+		return false, err.Error()
+	}
+	p := mon.Lookup("C07")
+	n, known, first := mon.ReplayRun(p, func(c *mon.Ctx) { c07Judge(c, cs.Text, cs.Mutation, nil) })
+	return n > 0, fmt.Sprintf("violations=%d known=%v %s", n, known, first)
+}
+
 func init() {
 	must := []string{"wellformed", "defect", "unclassified"}
 	for _, m := range gen.MutationNames {
@@ -271,6 +282,7 @@ func init() {
 		Rule:        "grammar-generated GeoJSON documents (all nine types and the Circle convention, nesting <= 5, 2-4-D and mixed-dimension positions, null ordinates, duplicate and \\u-escaped reserved members, shuffled member order, foreign members of any JSON shape, random whitespace, unusual number spellings); for each, mutants for every structural defect class of the statement at a random nesting level, and byte-level corruptions (trailing/leading bytes, truncation, dropped/swapped bytes, random bytes, BOM, two documents). Every text is classified by the independent reference reader: well-formed => must be accepted and decode to the same type/nesting/child order/x,y; listed defect => must be rejected with error and nil object; otherwise not asserted. Non-trivial = distinct text classified well-formed or defect.",
 		Assumptions: []string{"reference reader: internal/refjson on encoding/json's token stream (last duplicate member wins)", "texts the statement classifies on neither side (positions with more than four ordinates, Circle convention with non-numeric radius or unknown units, duplicate members inside properties) are counted as unclassified and not asserted"},
 		Run:         c07Run,
+		Replay:      c07Replay,
 		MustSee:     must,
 	})
 }
